@@ -109,16 +109,25 @@ def WF (ts : List Tok) : Bool := parse (ts.length + 1) ts == some []
 def sLP : Str := [40]
 def sRP : Str := [41]
 
-/-- canonical spelling of every token (`afterWith`: the previous token is `WITH`) -/
-def canonToks : List Tok → Bool → List Str
+/-- the same token list with every identifier in its official spelling
+(`afterWith`: the previous token is `WITH`, so the word is an exception id) -/
+def canonWords : List Tok → Bool → List Tok
   | [], _ => []
-  | .lp :: r, _ => sLP :: canonToks r false
-  | .rp :: r, _ => sRP :: canonToks r false
-  | .and :: r, _ => [65, 78, 68] :: canonToks r false
-  | .or :: r, _ => [79, 82] :: canonToks r false
-  | .with :: r, _ => [87, 73, 84, 72] :: canonToks r true
   | .word w :: r, afterWith =>
-    ((if afterWith then canonException w else canonSimple w).getD []) :: canonToks r false
+    .word ((if afterWith then canonException w else canonSimple w).getD []) :: canonWords r false
+  | .with :: r, _ => .with :: canonWords r true
+  | t :: r, _ => t :: canonWords r false
+
+/-- how a token is written: operators in upper case -/
+def spell : Tok → Str
+  | .lp => sLP
+  | .rp => sRP
+  | .and => [65, 78, 68]
+  | .or => [79, 82]
+  | .with => [87, 73, 84, 72]
+  | .word w => w
+
+def canonToks (ts : List Tok) (afterWith : Bool) : List Str := (canonWords ts afterWith).map spell
 
 /-- single spaces between tokens, none after `(` or before `)` -/
 def render : List Str → Str
